@@ -9,6 +9,10 @@
 (*   B1..B6 : no proposal, version 5                                       *)
 (*   C2..C6 : children of B1 that continue A's proposal (valid after A1,   *)
 (*            not after their real parent B1)                              *)
+(*   D1..D6 : proposal at D1, NO approval at D2, D3 COPIES the version     *)
+(*            fields across the round that closes the window (the pure     *)
+(*            verifier rejects it: a proposal below its threshold must be  *)
+(*            dropped there), D4 switches at the announced round           *)
 (* Design layer, as coded (solo engine):                                   *)
 (*   Import(seg)  InsertChain: BlockChain.VerifyYouVersionState checks the *)
 (*                first block against GetHeaderByNumber(n-1) -- the        *)
@@ -44,19 +48,24 @@ Lookback == 8
 QLo == 8
 QHi == 15
 MaxN == 6
-Names == {"G", "A1", "A2", "A3", "A4", "A5", "A6", "B1", "B2", "B3", "B4", "B5", "B6", "C2", "C3", "C4", "C5", "C6"}
+Names == {"G", "A1", "A2", "A3", "A4", "A5", "A6", "B1", "B2", "B3", "B4", "B5", "B6", "C2", "C3", "C4", "C5", "C6",
+          "D1", "D2", "D3", "D4", "D5", "D6"}
 Par == [b \in Names |-> CASE b \in {"A1", "B1"} -> "G" [] b = "A2" -> "A1" [] b = "A3" -> "A2" [] b = "A4" -> "A3" [] b = "A5" -> "A4"
                           [] b = "A6" -> "A5" [] b = "B2" -> "B1" [] b = "B3" -> "B2" [] b = "B4" -> "B3" [] b = "B5" -> "B4"
                           [] b = "B6" -> "B5" [] b = "C2" -> "B1" [] b = "C3" -> "C2" [] b = "C4" -> "C3" [] b = "C5" -> "C4"
-                          [] b = "C6" -> "C5" [] OTHER -> "-"]
-Num == [b \in Names |-> CASE b = "G" -> 0 [] b \in {"A1", "B1"} -> 1 [] b \in {"A2", "B2", "C2"} -> 2 [] b \in {"A3", "B3", "C3"} -> 3
-                          [] b \in {"A4", "B4", "C4"} -> 4 [] b \in {"A5", "B5", "C5"} -> 5 [] OTHER -> 6]
-Ver == [b \in Names |-> CASE b = "A1" -> <<5, 6, 1, 3, 4>> [] b \in {"A2", "A3", "C2", "C3"} -> <<5, 6, 2, 3, 4>>
-                          [] b \in {"A4", "A5", "A6", "C4", "C5", "C6"} -> <<6, 0, 0, 0, 0>> [] OTHER -> <<5, 0, 0, 0, 0>>]
+                          [] b = "C6" -> "C5" [] b = "D1" -> "G" [] b = "D2" -> "D1" [] b = "D3" -> "D2" [] b = "D4" -> "D3"
+                          [] b = "D5" -> "D4" [] b = "D6" -> "D5" [] OTHER -> "-"]
+Num == [b \in Names |-> CASE b = "G" -> 0 [] b \in {"A1", "B1", "D1"} -> 1 [] b \in {"A2", "B2", "C2", "D2"} -> 2
+                          [] b \in {"A3", "B3", "C3", "D3"} -> 3 [] b \in {"A4", "B4", "C4", "D4"} -> 4
+                          [] b \in {"A5", "B5", "C5", "D5"} -> 5 [] OTHER -> 6]
+Ver == [b \in Names |-> CASE b \in {"A1", "D1", "D2", "D3"} -> <<5, 6, 1, 3, 4>> [] b \in {"A2", "A3", "C2", "C3"} -> <<5, 6, 2, 3, 4>>
+                          [] b \in {"A4", "A5", "A6", "C4", "C5", "C6", "D4", "D5", "D6"} -> <<6, 0, 0, 0, 0>>
+                          [] OTHER -> <<5, 0, 0, 0, 0>>]
 HdOf(b) == Hdr(Num[b], Ver[b][1], Ver[b][2], Ver[b][3], Ver[b][4], Ver[b][5])
 Segs == { <<"A1", "A2", "A3">>, <<"A4", "A5">>, <<"A1", "A2", "A3", "A4", "A5", "A6">>, <<"A2", "A3", "A4", "A5", "A6">>,
           <<"B1">>, <<"B2", "B3", "B4", "B5">>, <<"B1", "B2", "B3", "B4", "B5", "B6">>,
-          <<"C2", "C3", "C4", "C5", "C6">>, <<"C2">> }
+          <<"C2", "C3", "C4", "C5", "C6">>, <<"C2">>,
+          <<"D1", "D2">>, <<"D1", "D2", "D3", "D4", "D5", "D6">>, <<"D3", "D4", "D5", "D6">> }
 
 VARIABLES s,      \* [blk, canon, head]: known blocks, number index, head
           ps,     \* s before the last action (generation: one witness schedule per reachable TRANSITION)
@@ -88,6 +97,24 @@ RunSeg(st, bs) ==
         ELSE IF Par[b] \notin st.blk THEN st                                    \* ErrUnknownAncestor
         ELSE RunSeg(WriteBlock(st, b), Tail(bs))
 ImportRes(st, seg) == IF Verified(st, seg) THEN RunSeg(st, seg) ELSE st
+\* what the PURE verifier says along the segment's real parent chain: index of the first rejected header, -1 none,
+\* -2 the real parent is not known to the chain
+PureFirstRejected(st, seg) ==
+   IF Par[seg[1]] \notin st.blk THEN -2
+   ELSE LET prev(i) == IF i = 1 THEN Par[seg[1]] ELSE seg[i - 1]
+            bad == { i \in DOMAIN seg : Verify(PP, KK, HdOf(prev(i)), HdOf(seg[i]), FALSE) # "ok" } IN
+        IF bad = {} THEN -1 ELSE (CHOOSE i \in bad : \A j \in bad : i <= j) - 1
+
+\* ---------------------------------------------------------------- probes: adversarial single headers chosen by TLC
+\* every header with fields in a small range on top of a parent of every kind of version state; `rej` = what the pure
+\* verifier model rejects, `acc` = what it accepts.  The driver builds each one as a real block and offers it to InsertChain.
+ProbeParents == {"G", "A1", "A2", "A3", "A4", "D1", "D2"}
+CandS(p) == [n : {Num[p] + 1}, cv : KK, nv : {0, 6}, ap : 0..3, vb : 0..5, so : 0..6]
+TupleOf(c) == <<c.cv, c.nv, c.ap, c.vb, c.so>>
+Probes == { [p |-> p, pv |-> Ver[p],
+             rej |-> { TupleOf(c) : c \in { d \in CandS(p) : Verify(PP, KK, HdOf(p), d, FALSE) # "ok" } },
+             acc |-> { TupleOf(c) : c \in { d \in CandS(p) : Verify(PP, KK, HdOf(p), d, FALSE) = "ok" } }] : p \in ProbeParents }
+GenProbes == (GenMode = "probes") => PrintT("@@J " \o ToJson([kind |-> "PROBES", h |-> Probes]))
 
 \* BlockChain.SetHead(k), k below the head
 SetHeadRes(st, k) == [blk |-> st.blk \ { b \in AncSet(st.head) : Num[b] > k },
